@@ -11,3 +11,8 @@ def run(ctx):
         return
     c11.t4_stage(ctx, situations=("blocked", "blocked_wt", "mixed"), clauses=("exit0", "prompt", "nopanic", "blocked_error", "no_hang"))
     ctx.assumptions += ["T4 (blocked calls at SIGINT/SIGTERM on the real binary): 'promptly' = the blocked call has its answer and the process has exited within 5000 ms of the signal"]
+
+
+def run(ctx, _inner=run):     # + T5-race (lib/racetie.py): data-race freedom, the assumption under every interleaving model; also re-runs its replay files
+    from lib import racetie
+    return racetie.stage(ctx, _inner, ["lock"])
